@@ -112,4 +112,7 @@ func EvWindowCloses() *Event { return &Event{K: "window-closes", Name: "session-
 // EvResetTime: the clock crosses the configured ResetSeqTime between two ticks of the run loop.
 func EvResetTime() *Event { return &Event{K: "reset-time", Name: "reset-time-passes"} }
 
+// EvClockTick: a tick of the run loop's one-second ticker that crosses no configured time.
+func EvClockTick() *Event { return &Event{K: "clock-tick", Name: "clock-tick"} }
+
 func EvSecondConnect() *Event { return &Event{K: "connect2", Name: "second-connect"} }
